@@ -84,6 +84,30 @@ inductive IntArg where
   | none | int (k : Int) | other
   deriving DecidableEq, Repr, Inhabited
 
+/-- the Python value a caller may hand over for an integer argument (MaxObjectCount, OperationTimeout): `None`, a plain
+    `int`, one of pywbem's CIM integer types (subclasses of `int`: Uint32, Uint64 …), a `bool` (also a subclass of `int`
+    in Python), or a value of another type -/
+inductive PyInt where
+  | none | int (k : Int) | uint32 (k : Int) | uint64 (k : Int) | bool (b : Bool) | other
+  deriving DecidableEq, Repr, Inhabited
+
+/-- what the validators make of it (`isinstance(x, int) and not isinstance(x, bool)`):
+    mirrors _validate_MaxObjectCount_Iter, _validate_OperationTimeout (type tests) -/
+def PyInt.canon : PyInt → IntArg
+  | .none => .none
+  | .int k => .int k
+  | .uint32 k => .int k
+  | .uint64 k => .int k
+  | .bool _ => .other
+  | .other => .other
+
+/-- the integer an int-like value stands for -/
+def PyInt.value? : PyInt → Option Int
+  | .int k => some k
+  | .uint32 k => some k
+  | .uint64 k => some k
+  | _ => Option.none
+
 /-- FilterQueryLanguage: None, 'DMTF:FQL', any other string -/
 inductive Lang where
   | none | fql | other
@@ -122,6 +146,10 @@ def validate (a : Args) : Option PyExc :=
   match validateTimeout a.timeout with
   | some e => some e
   | none => validateMax a.max
+
+/-- an Iter call as written by the caller: the integer arguments in whatever form they were given -/
+def Args.withForms (a : Args) (max timeout : PyInt) : Args :=
+  { a with max := max.canon, timeout := timeout.canon }
 
 def maxOf : IntArg → Int
   | .int k => k
